@@ -1,0 +1,40 @@
+//go:build verif
+
+package tiered
+
+import (
+	"io"
+
+	"github.com/uber/kraken/lib/store/memory"
+)
+
+// VerifC09SetSeams replaces the flusher's package-level memOpen / ioCopy test
+// seams (nil keeps the current one). Call it before any Store is created.
+func VerifC09SetSeams(
+	open func(mem *memory.Store, key string) (*memory.File, error),
+	cp func(dst io.Writer, src io.Reader) (int64, error),
+) {
+	if open != nil {
+		memOpen = open
+	}
+	if cp != nil {
+		ioCopy = cp
+	}
+}
+
+// VerifC09StopFlusher closes the flusher's stop channel so that idle flush
+// workers exit (the Store has no Close of its own).
+func VerifC09StopFlusher(s *Store) { close(s.impl.flusher.stop) }
+
+// VerifC09FlusherTracked returns the keys the flusher currently tracks as
+// dirty (queued or being flushed).
+func VerifC09FlusherTracked(s *Store) []string {
+	f := s.impl.flusher
+	f.mu.Lock()
+	defer f.mu.Unlock()
+	keys := make([]string, 0, len(f.blobs))
+	for k := range f.blobs {
+		keys = append(keys, k)
+	}
+	return keys
+}
